@@ -2,6 +2,7 @@ package world
 
 import (
 	"fmt"
+	"github.com/trustbloc/sidetree-core-go/pkg/commitment"
 	"math/rand"
 	"strings"
 	"time"
@@ -211,6 +212,41 @@ func IntakeRecommitCases(r *out.Run, g *out.Group, kp *KeyPool, thorough bool) {
 				if ri == 0 {
 					continue
 				}
+			}
+		}
+	}
+	// keys that carry a nonce: the nonce is part of the JWK, so (key, nonce) is a key identity of its own (index 100+i)
+	const nonce = "AAECAwQFBgcICQoLDA0ODw"
+	withNonce := func(k *Key, code uint) string {
+		c := *k.JWK
+		c.Nonce = nonce
+		v, err := commitment.GetCommitment(&c, code)
+		must(err)
+		return v
+	}
+	for ri, rk := range keys[:3] {
+		for _, nc := range codes {
+			for _, same := range []bool{true, false} {
+				next, ni := withNonce(rk, nc), int64(100+ri)
+				if !same {
+					next, ni = rk.Commitment(nc), int64(ri)
+				}
+				s := Spec{Label: "U", Type: operation.TypeUpdate, Suffix: create.UniqueSuffix, RevealKey: rk, SignedKey: rk, SignWith: rk, Nonce: nonce,
+					NextUpd: next, DeltaID: 2}
+				op := Build(s)
+				ok, pan := parse(op.Request)
+				r.Count("intake_update_nonce", fmt.Sprint(ok))
+				r.Add(g, emit.App("Build_kcase", "Update", emit.Z(int64(100+ri)), emit.Z(ni), emit.Z(int64(nc)), emit.Z(-1), emit.Z(0), emit.Bool(ok), emit.Bool(pan != "")),
+					map[string]interface{}{"kind": "intake-update-nonce", "reveal_key": ri, "next_is_same_key_with_nonce": same, "next_code": nc, "accepted": ok, "panic": pan, "request": string(op.Request)},
+					fmt.Sprintf("un%d-%v-%d", ri, same, nc), true)
+				s = Spec{Label: "R", Type: operation.TypeRecover, Suffix: create.UniqueSuffix, RevealKey: rk, SignedKey: rk, SignWith: rk, Nonce: nonce,
+					NextRec: next, NextUpd: keys[4].Commitment(SHA256), DeltaID: 2}
+				op = Build(s)
+				ok, pan = parse(op.Request)
+				r.Count("intake_recover_nonce", fmt.Sprint(ok))
+				r.Add(g, emit.App("Build_kcase", "Recover", emit.Z(int64(100+ri)), emit.Z(ni), emit.Z(int64(nc)), emit.Z(4), emit.Z(SHA256), emit.Bool(ok), emit.Bool(pan != "")),
+					map[string]interface{}{"kind": "intake-recover-nonce", "reveal_key": ri, "next_is_same_key_with_nonce": same, "next_code": nc, "accepted": ok, "panic": pan, "request": string(op.Request)},
+					fmt.Sprintf("rn%d-%v-%d", ri, same, nc), true)
 			}
 		}
 	}
